@@ -13,9 +13,17 @@ import vlib, wrap, gen_inputs
 KEYS = ["a", "b", "pH", "Na(mol/kgw)", "", "x y", "no_heading_1", "K" * 300, "sim", "a ", "A"]
 
 
-def gen_direct_case(rng, nops):
+def gen_direct_case(rng, nops, long_table=0):
     ops = ["NEW"]
     nrow_guess, ncol_guess = 0, 0
+    if long_table:
+        # a table that already has many finished rows (the container reserves 80 rows per column: late columns must still be padded
+        # with one empty cell for every row already written, on both sides of that boundary)
+        ops.append("P\t%s\tl1" % wrap.hexs(KEYS[0]))
+        ncol_guess = 1
+        for _ in range(long_table):
+            ops.append("E")
+        nrow_guess = long_table
     for _ in range(nops):
         k = rng.random()
         if k < 0.62:
@@ -54,7 +62,7 @@ def direct_correspondence(ctx, sodrive, mexe):
     ncases = ctx.n(1500, 30000)
     batch = []
     for i in range(ncases):
-        batch.append(gen_direct_case(ctx.rng, ctx.rng.choice([3, 8, 20, 60, 150])))
+        batch.append(gen_direct_case(ctx.rng, ctx.rng.choice([3, 8, 20, 60, 150]), long_table=(ctx.rng.choice([77, 78, 79, 80, 81, 82, 120, 161, 300]) if i % 12 == 0 else 0)))
     # corpus first
     corpus = [["NEW", "P\t61\tl1", "E", "P\t62\tl2", "E", "G\t1\t1", "G\t2\t0", "G\t3\t0", "G\t0\t2", "R", "T"],
               ["NEW", "E", "R", "G\t0\t0", "P\t\te", "R", "T"],
